@@ -72,6 +72,12 @@ def run(ctx):
             "main:\n addi sp, sp, -2147483648\n sw t0, -2147483648(sp)\n lw t1, 2147483647(sp)\n addi sp, sp, -1\n",
             "main:\n jal f\nf:\n addi sp, sp, 2147483647\n addi sp, sp, 2147483647\n sw ra, 2147483647(sp)\n ret\n",
             "﻿main:\n li a7, 10\n ecall\n", "main:\x00\n li\x00 t0, 1\n", "\r\r\r\n\r", "main:\n\tli\ta7,10\r\n\tecall\r\n"]
+    # long runs of ONE short unit (a token and a separator): anything that recurses or re-scans once per token shows here
+    # (round 8: lone dots separated by blanks reached the lexer's recursive fallback, one stack frame per dot)
+    for unit in (". ", ".,", ".\t", ".\r", ". \n", ".. ", ". . word ", "( ", ") ", ": ", ", ", "- ", "-\n", "' ", "'a' ", "\" ", "\"\" ",
+                 "x ", "x: ", "x:\n", "1 ", ".word ", ".word\n", ".data\n", ".include ", ".macro ", ".endmacro\n", "# \n", ";\n", "\\ ", "@ ",
+                 "li ", "li t0 ", "t0, ", "0( ", "(t0) ", "\u00e9 ", "\u3000. "):
+        edge.append(unit * 60000)
     # lines mixing multi-byte white space, tabs and errors: the excerpt printer works on columns
     printer = ['.data\n.string "\u3000\u3000\u3000" @\n', 'main:\n\tli t0, 5 \u00a0\u00a0 foo\n', '\u2003li t9, 5\n li \u3000 t0 $\n',
                'main:\n li t0, 5 # \u3000\u3000\n addi zero, t0, 1 # \u00e9\u00e9\u00e9\n', '.asciz "\u00e9\u00e9" ;\n', "\t\t.word 1 '\u4e2d\n",
